@@ -408,7 +408,7 @@ pub fn run_c12(tier: &str) -> i32 {
 
 // ---------------------------------------------------------------- C16
 
-pub const TOK_16: [&str; 10] = ["TXTPP#run", "-TXTPP#", "TXTPP", "#", " ", "\t", "x", "\u{e9}", "T", "\0"];
+pub const TOK_16: [&str; 11] = ["TXTPP#run", "-TXTPP#", "TXTPP", "#", " ", "\t", "x", "\u{e9}", "T", "\0", "\u{feff}"];
 
 fn lines_over_tokens(max_tok: usize) -> Vec<String> {
     let mut set = BTreeSet::new();
@@ -451,7 +451,7 @@ pub fn run_c16(tier: &str) -> i32 {
     // (max tokens per line, max lines)
     let plans: Vec<(usize, usize)> = if thorough { vec![(2, 3), (3, 2)] } else { vec![(2, 2), (3, 1)] };
     rep.set("token_alphabet", json!(TOK_16));
-    rep.set("bounds", json!(format!("texts with (tokens per line, lines) <= {:?} over 10 look-alike tokens; (a) directive-free texts verbatim, (b) write-escape round trip of every admissible text without a stored tag, with one, and captured by a second tag and injected next to the first, (c) ordinary lines in order on the C01 core space", plans)));
+    rep.set("bounds", json!(format!("texts with (tokens per line, lines) <= {:?} over 11 look-alike tokens (incl. U+FEFF); (a) directive-free texts verbatim, (b) write-escape round trip of every admissible text without a stored tag, with one, and captured by a second tag and injected next to the first, (c) ordinary lines in order on the C01 core space", plans)));
     rep.assume("which lines are 'directive lines' is decided by the reference grammar (checked against the implementation by C15)");
     for (pi, (max_tok, max_lines)) in plans.iter().enumerate() {
         let lines = lines_over_tokens(*max_tok);
